@@ -252,6 +252,26 @@ def clt_case(ctx, rs, scope, pred, tag):
     if not np.array_equal(X[obs], Y[obs]) or np.any(np.isnan(Y)) or not np.all(np.isin(Y, [0.0, 1.0])):
         ctx.violation('c06-clt-contract', 'BinaryCLT.mpe changed an observed entry or left / wrote a non-binary value', replay=rep)
         return
+    # the same tree used as a LEAF of a circuit (top-down pass of the circuit algorithms): the columns of its scope, in the order
+    # the scope lists them, must receive the tree's own completion
+    from deeprob.spn.structure.node import Product as _Product, assign_ids as _assign_ids
+    from deeprob.spn.algorithms.inference import mpe as _circuit_mpe
+    import copy as _copy
+    wrap = _assign_ids(_Product(children=[_copy.deepcopy(clt), Bernoulli(ncols, 0.3)]))
+    XF = np.full((len(X), ncols + 1), np.nan, dtype=np.float32)
+    XF[:, [int(v) for v in scope]] = X
+    try:
+        ZF = np.asarray(_circuit_mpe(wrap, XF))
+    except Exception as ex:
+        ctx.violation('c06-clt-leaf-raises', f'mpe of a circuit with this Chow-Liu leaf raised {type(ex).__name__}: {ex}', replay=rep)
+        return
+    ctx.count('clt-as-circuit-leaf-rows', len(X))
+    Z = ZF[:, [int(v) for v in scope]]
+    if not np.array_equal(Z, Y):
+        r = int(np.argmax(np.any(Z != Y, axis=1)))
+        ctx.violation('c06-clt-leaf-columns', f'circuit-level mpe with the Chow-Liu tree over scope {list(map(int, scope))} as a leaf completes evidence '
+                                              f'{X[r].tolist()} (scope order) to {Z[r].tolist()}, the tree itself to {Y[r].tolist()}', replay=dict(rep, as_leaf=True))
+        return
     # exactness: the completion attains the maximum joint probability among all completions (implementation's own likelihood)
     ll_y = np.asarray(clt.log_likelihood(Y)).reshape(-1)
     for r in range(len(X)):
